@@ -121,7 +121,7 @@ theorem seqAfterUpdate_mono {s s' : St} {m : UpdMsg} {b : Bool} (e : seqAfterUpd
   · cases e
   · rename_i prop hg
     dsimp only at e
-    have f1 : Mono s (setSeq s { prop with dishonor := prop.dishonor - min s.p.dishonorSU prop.dishonor }) :=
+    have f1 : Mono s (setSeq s { prop with dishonor := prop.dishonor - min s.sqp.dishonorSU prop.dishonor }) :=
       Mono.of_setSeq hg (by rfl) (by rfl) (fun _ => rfl) id
     split at e
     · exact f1.trans (onProposerLastBlock_mono e)
@@ -244,7 +244,7 @@ theorem unbond_mono {s s' : St} {a : Addr} (e : unbond s a = .ok s') : Mono s s'
                   rw [hn] at haw hnip
                   simp at haw hnip
                   omega
-              apply (Mono.of_seqs (s := s) (s' := { s with nq := insertSorted ltPair (s.t + s.p.noticePeriod, a) s.nq }) rfl).trans
+              apply (Mono.of_seqs (s := s) (s' := { s with nq := insertSorted ltPair (s.t + s.sqp.noticePeriod, a) s.nq }) rfl).trans
               apply Mono.of_setSeq (q0 := q) (a0 := a) hg (by rfl) (by rfl)
               · intro hc; rw [hnn] at hc; cases hc
               · exact id
@@ -390,6 +390,13 @@ theorem apply_mono {s s' : St} {o : Op} (h : Roles s) (e : apply s o = .ok s') :
   | update m => exact updateState_mono e
   | fraud au ra hh rev p rw => exact fraud_mono h.core.uniq e
   | obsolete au vs => exact markObsolete_mono e
+  | punish au a rw => exact (punish_frame h.core.uniq (punishProposal_ok e).2).mono
+  | transferOwner sg ra' no =>
+    obtain ⟨r, hg, _, _, _, rfl⟩ := transferOwner_ok e
+    exact Mono.of_seqs rfl
+  | setSeqParams au sp =>
+    obtain ⟨_, hnp, _, rfl⟩ := setSeqParams_ok e
+    exact Mono.of_seqs rfl
   | begin_ dt => simp only [apply] at e; injection e with e; subst e; exact Mono.of_seqs (beginBlock_seqs s dt)
   | end_ f => simp only [apply] at e; injection e with e; subst e; exact (endBlock_frame h.core.uniq).mono
 
